@@ -1,0 +1,27 @@
+//go:build verif
+
+package leader
+
+import "github.com/nats-io/nats.go"
+
+// Verification hooks (build tag "verif"). They only observe: nothing here changes
+// what the election does. With the tag off, verif_hooks_off.go compiles them to no-ops.
+
+// VerifNote, when set, receives the call-site notes emitted by verifNote.
+var VerifNote func(instanceID, site string, val int64)
+
+func verifNote(e *kvElection, site string, val int64) {
+	if f := VerifNote; f != nil {
+		f(e.cfg.InstanceID, site, val)
+	}
+}
+
+// VerifNewNATSKeyValue exposes the library's own NATS adapter for a bucket so that
+// the store contract can be checked through it.
+func VerifNewNATSKeyValue(nc *nats.Conn, bucket string) (KeyValue, error) {
+	js, err := (&natsConnAdapter{nc: nc}).JetStream()
+	if err != nil {
+		return nil, err
+	}
+	return js.KeyValue(bucket)
+}
